@@ -208,6 +208,43 @@ fn agg_case(tables: &Tables, si: usize, seq: &[u8]) -> (Vec<Failure>, bool) {
     (out, nontrivial)
 }
 
+const JOIN_DEF: &str = "CREATE TABLE u({ .b } => b TEXT, { .y } => y INT);";
+const JOINED: &str = "{\"b\":\"a\",\"y\":1}\n{\"b\":\"a\",\"y\":1}\n{\"b\":\"a\",\"y\":2}\n{\"b\":\"c\",\"y\":1}\n{\"b\":\"c\",\"y\":1}\n";
+const JOIN_STMTS: [&str; 5] = [
+    "SELECT DISTINCT t.b, y FROM t INNER JOIN u::'@' ON t.b = u.b",
+    "SELECT DISTINCT y FROM t OUTER JOIN u::'@' ON t.b = u.b",
+    "SELECT DISTINCT t.b, COUNT(*) FROM t INNER JOIN u::'@' ON t.b = u.b GROUP BY t.b",
+    "SELECT DISTINCT COUNT(*), SUM(y) FROM t INNER JOIN u::'@' ON t.b = u.b GROUP BY t.b",
+    "SELECT DISTINCT i, MAX(y), COUNT(y) FROM t OUTER JOIN u::'@' ON t.b = u.b GROUP BY i",
+];
+
+/// DISTINCT over a join whose joined file repeats rows: the DISTINCT output is the duplicate-free form of the plain output
+fn join_case(tables: &Tables, si: usize, seq: &[u8], path: &str) -> (Vec<Failure>, bool) {
+    let al = alpha();
+    let lines: Vec<&str> = seq.iter().map(|i| al[*i as usize]).collect();
+    let d = JOIN_STMTS[si].replace('@', path);
+    let dst = sut::parse(&d).unwrap();
+    let pst = sut::parse(&no_distinct(&d)).unwrap();
+    let mut out = Vec::new();
+    let (p, dd) = (sut::run_batch(tables, &pst, &lines), sut::run_batch(tables, &dst, &lines));
+    let mut nontrivial = false;
+    if let Outcome::Ok(pt) = &p {
+        let expected = distinct_rows(&pt.rows);
+        nontrivial = has_dup(&pt.rows);
+        if !matches!(&dd, Outcome::Ok(t) if rows_same(&t.rows, &expected)) {
+            out.push(fail(
+                format!("distinct:join:{}", if dst.is_aggregate() { "aggregate" } else { "select" }),
+                format!("`{}`: result is not the duplicate-free form of the non-DISTINCT result", JOIN_STMTS[si]),
+                json!({"layer": "join", "stmt": si, "statement": JOIN_STMTS[si], "seq": seq, "lines": lines, "joined_file": JOINED}),
+                rows_json(&expected),
+                sut::outcome_json(&dd, |t| t.to_json()),
+                seq.len() as u64 * 10,
+            ));
+        }
+    }
+    (out, nontrivial)
+}
+
 pub fn run(ctx: &Ctx) -> i32 {
     let col = Collector::new();
     let tables = sut::make_tables(DEF).unwrap();
@@ -285,6 +322,25 @@ pub fn run(ctx: &Ctx) -> i32 {
     });
     col.layer("agg", done, complete, json!({"max_len": amax, "statements": AGG_STMTS}));
 
+    {
+        let jt = sut::make_tables(&format!("{}\n{}", DEF, JOIN_DEF)).unwrap();
+        let tmp = sut::TempFiles::new(&[JOINED.as_bytes()]);
+        let jmax = 3u32;
+        let nj = seq_count(k, jmax) * JOIN_STMTS.len() as u64;
+        let (done, complete) = par_for_budget(ctx, nj, 64, |idx| {
+            let si = (idx % JOIN_STMTS.len() as u64) as usize;
+            let seq = seq_decode(idx / JOIN_STMTS.len() as u64, k, jmax);
+            let (fs, nt) = join_case(&jt, si, &seq, &tmp.paths[0]);
+            col.eval(2);
+            if nt {
+                col.nontrivial(h64(&("join", si, &seq)));
+            }
+            for f in fs {
+                col.fail(f);
+            }
+        });
+        col.layer("DISTINCT over joins (joined file with repeated rows)", done, complete, json!({"statements": JOIN_STMTS, "max_len": jmax}));
+    }
     // DISTINCT statements through every driver
     {
         let input: Vec<String> = [0usize, 1, 12, 2, 0, 5, 6, 3, 11, 4, 4].iter().map(|i| al[*i].to_string()).collect();
@@ -318,6 +374,12 @@ pub fn replay(case: &J) -> Vec<Failure> {
             let seq: Vec<u8> = case["seq"].as_array().unwrap().iter().map(|x| x.as_u64().unwrap() as u8).collect();
             let lines: Vec<&str> = seq.iter().map(|i| al[*i as usize]).collect();
             seq_case(&tables, case["stmt"].as_u64().unwrap() as usize, &lines, case.clone(), 0, "seq").0
+        }
+        Some("join") => {
+            let jt = sut::make_tables(&format!("{}\n{}", DEF, JOIN_DEF)).unwrap();
+            let tmp = sut::TempFiles::new(&[JOINED.as_bytes()]);
+            let seq: Vec<u8> = case["seq"].as_array().unwrap().iter().map(|x| x.as_u64().unwrap() as u8).collect();
+            join_case(&jt, case["stmt"].as_u64().unwrap() as usize, &seq, &tmp.paths[0]).0
         }
         Some("gap") => {
             let lines = gap_lines(case["kind"].as_u64().unwrap() as usize, case["gap"].as_u64().unwrap() as usize);
